@@ -50,6 +50,8 @@ def parse_prec(out):
             t[p[0]] = p[1:] if p[0] == "opnames" else [int(x) for x in p[1:]]
         elif p[0] in ("left_binary", "right_binary", "left_unary", "right_unary", "left_cast"):
             t.setdefault(p[0], {})[str(int(p[1]))] = [int(x) for x in p[2:]]
+        elif p[0] == "tywalk":
+            t.setdefault("tywalk", []).append([p[1], int(p[2])])
         elif p[0] == "end":
             t["end"] = True
     if not t.pop("end", False):
